@@ -4,7 +4,7 @@ package main
 import (
 	"verifharness/vlib"
 
-	_ "verifharness/props"
+	_ "verifharness/props/all"
 )
 
 func main() { vlib.ChildMain() }
